@@ -541,7 +541,10 @@ class Live(Family):
                     def after_request(sock, srv=srv):
                         if case.get("late_line"):
                             time.sleep(0.25)
-                            sock.sendall(b"stray line\r\n")          # a later TLS record, while the response is on its way
+                            try:
+                                sock.sendall(b"stray line\r\n")          # a later TLS record, while the response is on its way
+                            except OSError:
+                                pass       # a connection the server has torn down by now: what the client can still read is judged below
                         if case.get("slow_handler"):
                             time.sleep(0.25)
                             srv.advance(case["slow_handler"] + 1)
@@ -570,13 +573,18 @@ class Live(Family):
         resp = returned[0]
         units = len(resp.body) if resp.body is not None else 0
         self._tok = (core.case_digest(case), resp_token(resp.status, resp.meta, resp.body, units > SMALL), units > SMALL, len(wb))
+        self._toks = {**getattr(self, "_toks", {}), self._tok[0]: self._tok}
         return obs
 
     def model(self, case):
-        t = getattr(self, "_tok", None)
-        if t is None or t[0] != core.case_digest(case):
+        # the model line of every case that ran is remembered (running a case again only to rebuild it would double the wall time of the
+        # family and let a hiccup of that second run - a send into a connection the server has reset - escape as a crash)
+        t = getattr(self, "_toks", {}).get(core.case_digest(case))
+        if t is None:
             self.impl(case)
-            t = self._tok
+            t = getattr(self, "_toks", {}).get(core.case_digest(case))
+            if t is None:
+                return None
         # identity transport (stdlib_delivers); by backends_identical the PyOpenSSL stream must be the same
         return f"c06 all 0 0 n {t[1]} {t[3]}" if t[2] else f"c06 all 0 0 r {t[1]}"
 
@@ -697,7 +705,7 @@ class Concurrent(Family):
         for r, sz in zip(readers, szs):
             d = gen_dims(rng, sz, True)
             if pool:
-                d["btype"], d["fill"], d["status"] = "bytes", rng.choice(["rand", "rand", "counter"]), 20
+                d["btype"], d["fill"], d["status"] = "bytes", "rand", 20     # every body different from the others at (almost) every offset
             d.update({"reader": r, "rcvbuf": rng.choice([2048, 8192, None]) if r not in ("hold", "abort", "stall") else rng.choice([2048, 8192])})
             clients.append(d)
         # a pooled buffer goes with a synchronous handler: the body is what the buffer holds at the moment the handler returns to the
@@ -750,13 +758,16 @@ class Concurrent(Family):
         first = case["clients"][0]
         units = len(bodies[0])
         self._tok = (core.case_digest(case), resp_token(first["status"], first["meta"], bodies[0], units > SMALL), units > SMALL, wants[0]["blen"])
+        self._toks = {**getattr(self, "_toks", {}), self._tok[0]: self._tok}
         return obs
 
     def model(self, case):
-        t = getattr(self, "_tok", None)
-        if t is None or t[0] != core.case_digest(case):
+        t = getattr(self, "_toks", {}).get(core.case_digest(case))
+        if t is None:
             self.impl(case)
-            t = self._tok
+            t = getattr(self, "_toks", {}).get(core.case_digest(case))
+            if t is None:
+                return None
         return f"c06 all 0 0 n {t[1]} {t[3]}" if t[2] else f"c06 all 0 0 r {t[1]}"
 
     def expect(self, case, out):
